@@ -22,6 +22,7 @@ def params : Params :=
     maxRefs := Gen.C01.maxRefs,
     flagCompressed := Gen.C01.flagCompressed, flagEncrypted := Gen.C01.flagEncrypted, flagError := Gen.C01.flagError,
     ldHeader := Gen.C01.ldHeader, ldLenBits := Gen.C01.ldLenBits, ldReadLo := Gen.C01.ldReadLo,
-    ldReadSub := Gen.C01.ldReadSub, nilBodyEncodes := Gen.C01.nilBodyEncodes }
+    ldReadSub := Gen.C01.ldReadSub, ldWriteAdd := Gen.C01.ldWriteAdd, ldWriteHi := Gen.C01.ldWriteHi,
+    ldWriteHeader := Gen.C01.ldWriteHeader, ldRetAdd := Gen.C01.ldRetAdd, nilBodyEncodes := Gen.C01.nilBodyEncodes }
 
 end Fatchoy.C01
